@@ -239,3 +239,106 @@ func runReplaceRace(rcx *RunCtx, k int) {
 	})
 	finishRun(rcx)
 }
+
+// Walk-race: a two-component Twalk (A) is parked inside the backend call for
+// its second component; a rename of the first component, a rename of the
+// second, or an unlink of the second (B) queues behind it; A is released and
+// the tape decides how the end of the walk (publishing the new fid and the
+// Files it obtained) interleaves with B.  Afterwards every File the backend
+// handed out is where the tree says, and the new fid denotes the object the
+// walk reached.
+var walkRaceB = []struct {
+	name string
+	m    func() rc.Message
+}{
+	{"rename-first-component", func() rc.Message { return &rc.Trenameat{OldDirFid: 0, OldName: "a", NewDirFid: 0, NewName: "c"} }},
+	{"rename-second-component", func() rc.Message { return &rc.Trenameat{OldDirFid: 2, OldName: "b", NewDirFid: 2, NewName: "x"} }},
+	{"move-second-component-away", func() rc.Message { return &rc.Trenameat{OldDirFid: 2, OldName: "b", NewDirFid: 0, NewName: "y"} }},
+	{"unlink-second-component", func() rc.Message { return &rc.Tunlinkat{DirFid: 2, Name: "b"} }},
+}
+
+const walkRaceSchedules = 32
+
+func walkRaceCount() int { return len(walkRaceB) * 2 * walkRaceSchedules }
+
+func runWalkRace(rcx *RunCtx, k int) {
+	cfg := simCfg(rcx)
+	b := walkRaceB[k%len(walkRaceB)]
+	cross := (k/len(walkRaceB))%2 == 1
+	rcx.Label = fmt.Sprintf("walk-race %s cross=%v", b.name, cross)
+	rcx.Sample = map[string]interface{}{"scenario": "two-component walk parked at its second step racing with " + b.name, "B_on_other_connection": cross}
+	find := func(oracle, key, format string, args ...interface{}) {
+		rcx.Find("C08", oracle, key, format, args...)
+	}
+	rcx.Res = simrt.Run(cfg, rcx.Sched, func() {
+		fs := simfs.New()
+		fs.WalkGetAttrENOSYS = rcx.Plan.Choose(2) == 1
+		fs.MkPath("/a/")
+		target := fs.MkPath("/a/b")
+		w := NewWorld(nil, fs)
+		ca := w.Connect()
+		cb := ca
+		if cross {
+			cb = w.Connect()
+		}
+		ok := ca.Start(8192, "9P2000.L.Google.7")
+		if cross {
+			ok = ok && cb.Start(8192, "9P2000.L.Google.7")
+		}
+		ok = ok && cb.WalkTo(0, 2, "/a")
+		if !ok {
+			find("setup", "setup", "setup failed")
+			return
+		}
+		var held *simfs.Call
+		fs.Hold = func(c *simfs.Call) bool {
+			if held == nil && (c.Method == "Walk" || c.Method == "WalkGetAttr") && len(c.Names) == 1 && c.Names[0] == "b" {
+				held = c
+				return true
+			}
+			return false
+		}
+		reqA := ca.Send(ca.Tag(), &rc.Twalk{Fid: 0, NewFid: 1, Names: []string{"a", "b"}})
+		simrt.WaitQuiescent()
+		if held == nil {
+			find("setup", "hold", "the walk did not reach its second component")
+			return
+		}
+		reqB := cb.Send(cb.Tag(), b.m())
+		simrt.WaitQuiescent()
+		fs.Hold = nil
+		held.Release()
+		simrt.WaitQuiescent()
+		if reqA.Reply == nil || reqB.Reply == nil {
+			rcx.Find("C06", "no-reply", "walk-race", "walk answered: %v, %s answered: %v", reqA.Reply != nil, b.name, reqB.Reply != nil)
+			return
+		}
+		if _, ok := reqA.Reply.Msg.(*rc.Rwalk); !ok {
+			find("walk-failed", b.name, "Twalk [a b] answered %s although both components existed while it ran", rc.String(reqA.Reply.Msg))
+			return
+		}
+		rcx.Count("walk_race.walk_succeeded", 1)
+		for _, v := range fs.CheckCoherence() {
+			find(v.Oracle, "walk-race", "after walk [a b] || %s: %s", b.name, v.Detail)
+		}
+		g := ca.Send(ca.Tag(), &rc.Tgetattr{Fid: 1, Mask: rc.GetattrIno})
+		simrt.WaitQuiescent()
+		if g.Reply == nil {
+			rcx.Find("C06", "no-reply", "walk-race", "Tgetattr through the walked fid not answered")
+		} else if ga, ok := g.Reply.Msg.(*rc.Rgetattr); ok {
+			if ga.QID.Path != target.Ino {
+				find("fid-lost-object", "walk-race", "after walk [a b] || %s: the walked fid reports inode %d, the walk reached inode %d", b.name, ga.QID.Path, target.Ino)
+			}
+		} else if b.name != "unlink-second-component" {
+			find("fid-lost-object", "walk-race", "after walk [a b] || %s: Tgetattr through the walked fid gives %s", b.name, rc.String(g.Reply.Msg))
+		}
+		c2 := ca.Send(ca.Tag(), &rc.Twalk{Fid: 1, NewFid: 9})
+		simrt.WaitQuiescent()
+		if c2.Reply != nil && Errno(c2.Reply.Msg) == EFAULT {
+			find("clone-of-walked-fid-failed", "walk-race", "after walk [a b] || %s: cloning the walked fid gives EFAULT", b.name)
+		}
+		w.Shutdown()
+		rcx.Findings = append(rcx.Findings, w.Findings...)
+	})
+	finishRun(rcx)
+}
